@@ -74,9 +74,9 @@ def _tshape(t):
     return "?"
 
 
-def compare(label, classes, start, expansion, g, rec, which="extract"):
+def compare(label, classes, start, expansion, g, rec, which="extract", closed=False):
     """Compares one Grammar with the reference analysis."""
-    model = refmodel.Model(classes, start, expansion=expansion)
+    model = refmodel.Model(classes, start, expansion=expansion, closed=closed)
     lo, _ = model.mindepth_table(lists_may_be_empty=True)
     hi, _ = model.mindepth_table(lists_may_be_empty=False)
     rec.count("grammars_compared")
@@ -165,9 +165,9 @@ def check_usable(label, classes, start, expansion, g, rec):
     reach = set(model.reachable())
     rec.count("unreachable_symbols_seen", len(set(model.registered) - reach))
     lib = {c for c in ug.all_nodes if isinstance(c, type) and c.__module__ != "builtins"}
-    # the library registers the abstract supertypes of a registered class as symbols; they add no program
-    ancestors = {b for c in reach for b in c.__mro__[1:] if b in lib}
-    lib -= ancestors - reach
+    # "contains exactly the symbols reachable from the start symbol": the abstract supertypes of the starting symbol, or of
+    # a concrete class used as a field type, are NOT reachable (they used to be tolerated here as 'adding no program'; they
+    # are symbols and rules of the sub-grammar all the same, with an analysis of their own)
     if lib != reach:
         rec.violation(
             f"usable_grammar:{'extra' if lib - reach else 'missing'}-symbols",
@@ -184,7 +184,7 @@ def check_usable(label, classes, start, expansion, g, rec):
                 rec.violation("usable_grammar:productions-differ", dict(wit, symbol=a.__name__, usable=got, reference=ref))
     if bool(ug.expansion_depthing) != bool(g.expansion_depthing):
         rec.violation("usable_grammar:depthing-mode-dropped", dict(wit, original=bool(g.expansion_depthing), usable=bool(ug.expansion_depthing)))
-    compare(label, sorted(reach | ancestors, key=lambda c: c.__name__), start, bool(ug.expansion_depthing), ug, rec, which="usable")
+    compare(label, sorted(reach, key=lambda c: c.__name__), start, bool(ug.expansion_depthing), ug, rec, which="usable", closed=True)
 
 
 def run_case(case, rec):
